@@ -527,6 +527,7 @@ def gen_m2(rnd, tier):
     cases += gen_transition_families(random.Random(rnd.random()), tier)
     cases += gen_parse_families(random.Random(rnd.random()), tier)
     cases += directed_m2()
+    cases += directed_rolling()
     return cases
 
 
@@ -1080,6 +1081,50 @@ def gen_month_family(rnd, tier):
     return out
 
 
+def directed_rolling():
+    """the two staleness findings, every creation (= update) order, through Start() and the real timer handler:
+       start-order     work = 09:00-17:00 (or 00:00-24:00) excluding lunch = 12:00-13:00, started at 10:00, 5-minute rounds
+                       until 12:30, is_inside asked at the clock: wrong when lunch was started after work (work's valid_end
+                       lies beyond now + 24 h, every round returns early and merges nothing)
+       nested-include  a = 09:00-10:00 including b = 00:00-24:00 excluding c = 12:00-13:00, a day and a half of rounds:
+                       wrong from the second day on whenever c is updated after b"""
+    out = []
+    zn = 'UTC'
+    day0 = T0 // 86400 + 10
+    n0 = mk_local(zn, day0 * 86400) + 10 * 3600
+    D0 = datetime.date(1970, 1, 1) + datetime.timedelta(days=day0 - 2)
+    D1 = D0 + datetime.timedelta(days=9)
+    s_, a_ = daydef(('d', D0.year, D0.month, D0.day), ('d', D1.year, D1.month, D1.day), 1)
+    news = {'a': 'tp_new name=a prefer=1 inc=b exc=-', 'b': 'tp_new name=b prefer=1 inc=- exc=c', 'c': 'tp_new name=c'}
+    for order in ('bc', 'cb'):
+        for own_b in ([(0, 86400)], [(9 * 3600, 17 * 3600)]):
+            trs = {'b': own_b, 'c': [(12 * 3600, 13 * 3600)]}
+            lines = ['now %d' % n0, tz_line(zn, n0 - 5 * 86400, n0 + 9 * 86400),
+                     'tp_pts ' + ','.join(str(x) for x in roll_probes(zn, n0 - 3600, n0 + 3 * 86400, own_b + trs['c']))]
+            lines += [news[nm] for nm in order] + [range_line(nm, s_, a_, trs[nm], None) for nm in 'bc']
+            lines += ['tp_start name=%s' % nm for nm in order]
+            t = n0
+            while t < n0 + 2 * 3600 + 1800:
+                t += 300
+                lines += ['now %d' % t, 'tp_timer']
+            lines += ['tp_now name=b', 'tp_now name=c']
+            out.append({'lines': lines, 'tags': {'family': 'm2-directed-start-order', 'zone': zn, 'roll_order': order}})
+    for order in ('abc', 'acb', 'bac', 'bca', 'cab', 'cba'):
+        trs = {'a': [(9 * 3600, 10 * 3600)], 'b': [(0, 86400)], 'c': [(12 * 3600, 13 * 3600)]}
+        lines = ['now %d' % n0, tz_line(zn, n0 - 5 * 86400, n0 + 9 * 86400),
+                 'tp_pts ' + ','.join(str(x) for x in roll_probes(zn, n0 - 3600, n0 + 3 * 86400, sum(trs.values(), [])))]
+        lines += [news[nm] for nm in order] + [range_line(nm, s_, a_, trs[nm], None) for nm in 'abc']
+        lines += ['tp_start name=%s' % nm for nm in order]
+        t = n0
+        while t < n0 + 86400 + 2 * 3600:
+            t += 300 if n0 + 3600 < t < n0 + 4 * 3600 else 1800
+            lines += ['now %d' % t, 'tp_timer']
+        t = n0 + 86400 + 2 * 3600 + 1800                       # 12:30 on the next day
+        lines += ['now %d' % t, 'tp_timer', 'tp_now name=a', 'tp_now name=b']
+        out.append({'lines': lines, 'tags': {'family': 'm2-directed-nested-include', 'zone': zn, 'roll_order': order}})
+    return out
+
+
 def directed_m2():
     """hand-aimed cases: the witnesses of F-C08-b / F-C08-c and the unit test's shapes"""
     out = []
@@ -1169,7 +1214,24 @@ def classify(case, detail, impl_lines):
         return 'calendar-hypotheses'
     if 'op=tp_parse' in detail:
         return 'parse'
+    if 'violates-C08 stale-reference' in detail:
+        return 'stale-reference'
     if 'violates-C08 rolling' in detail:
+        # the judged period includes a period that has includes / excludes of its own: what that one wrongly reported for a
+        # round stays (known finding); anything else in a rolling case is not known
+        import re
+        m = re.search(r' name=(\S+)', detail)
+        news = {}
+        for l in case['lines']:
+            if l.startswith('tp_new '):
+                kv = dict(x.split('=', 1) for x in l.split()[1:] if '=' in x)
+                news[kv.get('name')] = kv
+        me = news.get(m.group(1)) if m else None
+        if me:
+            for q in (me.get('inc', '-') or '-').split(','):
+                qq = news.get(q)
+                if qq and ((qq.get('inc', '-') not in ('-', '')) or (qq.get('exc', '-') not in ('-', ''))):
+                    return 'include-of-excluding-period'
         return 'rolling'
     if 'calendar' in detail:
         if detail.endswith('class=1'):
